@@ -6,7 +6,7 @@ def all_families(tier, seed_base):
     """list of {prog, family, ident} over every family that exists (used by C01 and C02)."""
     out = []
     out += fam_c09.programs(tier)
-    for modname in ("fam_c03", "fam_c06", "fam_c07", "fam_c08", "fam_c10", "fam_c17", "fam_c18", "fam_c19"):
+    for modname in ("fam_c03", "fam_c06", "fam_c07", "fam_c08", "fam_c10", "fam_c17", "fam_c18", "fam_c19", "fam_found"):
         try:
             mod = __import__(modname)
         except ImportError:
